@@ -15,7 +15,7 @@ from .c12 import FS_MUT
 META = {
     "level": "other",
     "technique": "backward value-flow (taint) over MIR from fs-mutation sinks to archive-name sources with sanitiser stops + dominating guard recognition; sink wrappers summarised to depth 3",
-    "claim": "Decides for every fs-mutating call site in the CLI (all sub-commands, both extraction branches) whether an archive-supplied name can reach its path without a component sanitiser. Complete at the level of value flow; does not consider symlink races inside the output tree. Wave 5: what a sanitiser joins is a plain view of the very value it tested (no rewriting after validation); named component predicates are followed. Wave 7: no success return of a sanitiser precedes its component test (MIR dominance).",
+    "claim": "Decides for every fs-mutating call site in the CLI (all sub-commands, both extraction branches) whether an archive-supplied name can reach its path without a component sanitiser. Complete at the level of value flow; does not consider symlink races inside the output tree. Wave 5: what a sanitiser joins is a plain view of the very value it tested (no rewriting after validation); named component predicates are followed. Wave 7: no success return of a sanitiser precedes its component test (MIR dominance). Wave 8: helpers that build the output path from the base name alone are recognised as sanitising joins.",
     "note": "Trusted: Path::file_name returns a single Normal component; Path::join semantics; MIR def-use (flow-insensitive union of definitions, so a sink is clean only if every definition of its path is clean).",
     "assumptions": ["archive-supplied names enter the CLI only through the wow_mpq listing/extraction APIs and mpq_path_to_system"],
     "explanation": "All functions of warcraft_rs::commands::* (binary crate): every call to a std::fs mutator (write/create/create_dir_all/rename/copy/remove/OpenOptions::open) and every local wrapper that forwards a path parameter to one.",
